@@ -27,8 +27,14 @@ def gen_request(rng, rid, keep, B):
 
 def gen_handler(rng, role, contents):
     ops = []
-    how = rng.choice(["all", "part", "none", "fill"])
+    how = rng.choice(["all", "part", "none", "fill", "mix"])
     if how == "all":
+        ops.append(("readall",))
+    elif how == "mix":
+        # buffered and direct reads on the same stream: look at what is there, take a little, go on with small reads, then the rest
+        ops.append(("fill", rng.choice([0, 1, 10])))
+        for _ in range(rng.randrange(1, 3)):
+            ops.append(("read", rng.choice([1, 7, 16])))
         ops.append(("readall",))
     elif how == "part":
         for _ in range(rng.randrange(1, 4)):
